@@ -47,6 +47,12 @@ def get_evaluable_architecture(
         regex_exclusions: Proper regex version of 'exclusions'. Can only be specified if regex_exclusions is not specified.
         regex_external_exclusions: Proper regex version of 'external_exclusions' to exclude certain external dependencies from being integrated into the evaluable. Can only be specified if exclude_external_libraries is False and external_exclusions is not specified. If a parent module (e.g. 'logging') is excluded, so will be child modules (e.g. 'logging.handlers').
     """
+    # a single pattern can be given as a plain string
+    exclusions = _single_pattern_to_tuple(exclusions)
+    regex_exclusions = _single_pattern_to_tuple(regex_exclusions)
+    external_exclusions = _single_pattern_to_tuple(external_exclusions)
+    regex_external_exclusions = _single_pattern_to_tuple(regex_external_exclusions)
+
     if exclusions is None:
         # the default exclusions only apply if the user did not specify exclusions of their own, of either kind
         exclusions = () if regex_exclusions else DEFAULT_EXCLUSIONS
@@ -129,6 +135,15 @@ def get_evaluable_architecture_for_module_objects(
         external_exclusions,
         regex_external_exclusions,
     )
+
+
+def _single_pattern_to_tuple(
+    patterns: tuple[str, ...] | str | None,
+) -> tuple[str, ...] | None:
+    if isinstance(patterns, str):
+        return (patterns,)
+
+    return patterns
 
 
 def _get_directory_of_module_object(module: ModuleType) -> str:
